@@ -1071,7 +1071,7 @@ func (c *checkCtx) writeEvidence(total, ok, trivial int, by map[string]int, solv
 			"bounded_standins":         c.bounded,
 			"known_findings_reported":  known,
 			"notes":                    c.notes,
-			"explanation":              propExplanation[c.prop],
+			"explanation":              c.explanation(),
 			"dropped_by_translation":   []string{"error identity (nil/non-nil only)", "out-of-memory and stack exhaustion", "bytes.Buffer capacity / consumed prefix", "float arithmetic (floats are moved as bit patterns)"},
 		},
 		"assumptions": assumptions,
@@ -1098,6 +1098,37 @@ func writeLoadFailure(vdir, prop, tier string, err error) int {
 }
 
 var propExplanation = map[string]string{}
+
+// explanation: what this check proves, from the claim registered in MANIFEST.json, and how the run is composed.
+func (c *checkCtx) explanation() string {
+	text := propExplanation[c.prop]
+	if b, err := os.ReadFile(filepath.Join(c.V.verifDir, "MANIFEST.json")); err == nil {
+		var m struct {
+			Checks []struct {
+				PropertyID string `json:"property_id"`
+				Level      struct {
+					Text string `json:"text"`
+				} `json:"level_claimed"`
+			} `json:"checks"`
+		}
+		if json.Unmarshal(b, &m) == nil {
+			for _, ch := range m.Checks {
+				if ch.PropertyID == c.prop && ch.Level.Text != "" {
+					text = ch.Level.Text
+				}
+			}
+		}
+	}
+	nOwn, nClo := 0, 0
+	for _, o := range c.obs {
+		if o.Closure {
+			nClo++
+		} else {
+			nOwn++
+		}
+	}
+	return strings.TrimSpace(text + fmt.Sprintf(" This run: %d obligations of the property's own plan (always put to the solvers) and %d of the closure — every contract the plan applies at a call site (library functions, checksum services, registry, discriminator tables, schema contracts of all message types) and the accounting of functions without contract are verified in the same run (DESIGN II.11–II.13); in the quick tier identical closure queries may reuse a stored unsat answer (by_backend: cache(...)).", nOwn, nClo))
+}
 
 // leanCoverage reports which named axioms of the prelude are proved in prelude/Prelude.lean (sequence
 // fragment, core Lean) or prelude/Model.lean (scalar encoders, element kinds, boxing, CRC recursions:
